@@ -171,19 +171,6 @@ def step_class(cls, params, wrong=(), cap=30, block=()):
     return r
 
 
-# Collector extracts arrays by shapes; scalars registered via EX.inputs need their own model conversion
-def _patch_collector():
-    from vf import hutil, symscalar as SS
-
-    def _model(self, out):
-        names = list(out.get('m', {}).keys())
-        return SS.model_scalars(out, names)
-    hutil.Collector._model = _model
-
-
-_patch_collector()
-
-
 def _patch_json_checker():
     """json_checker's Or() filters alternatives by the *exact* type of the value (`data is type(value)`): make it see the
     symbolic scalars as their base types (the proxies are subclasses of int / float only for technical reasons)"""
